@@ -589,6 +589,8 @@ static json tree_cfg(cfg_t *cfg, int depth)
 		else
 			j["c"] = nullptr;
 		unsigned n = cfg_opt_size(o);
+		if (o->simple_value.ptr && o->type != CFGT_SEC)
+			j["sv"] = value_repr(o, 0); // bound to an application variable: the value lives there
 		if (o->type == CFGT_SEC) {
 			json secs = json::array();
 			for (unsigned k = 0; k < n; k++) {
